@@ -1237,12 +1237,13 @@ pub(crate) fn nanoseconds_to_formattable_offset_minutes(
         NonZeroU128::new_unchecked(NS_PER_MINUTE as u128)
     })?
     .round(RoundingMode::HalfExpand);
-    let offset_minutes = (nanoseconds / NS_PER_MINUTE) as i32;
+    let offset_minutes = nanoseconds / NS_PER_MINUTE;
     let sign = if offset_minutes < 0 {
         Sign::Negative
     } else {
         Sign::Positive
     };
+    // (kept wide: a provider may report any offset, and |i32::MIN| does not fit an i32)
     let hour = offset_minutes.abs() / 60;
     let minute = offset_minutes.abs() % 60;
     Ok((sign, hour as u8, minute as u8))
